@@ -1,9 +1,11 @@
 (* Entry point of the extracted runner: one request = opcode + one encoded argument value.
    Op 0 loads the live action catalogue; ops n*100 .. n*100+99 belong to property Cn (theories/Run/Rn.v). *)
 From Coq Require Import List Bool NArith ZArith.
-From PV Require Import Base.Str Base.Value Base.Wire Run.RState.
+From PV Require Import Base.Str Base.Value Base.Wire Base.WireFast Run.RState.
 From PV Require Import Run.R01.
 From PV Require Import Run.R08.
+From PV Require Import Run.R09.
+From PV Require Import Run.R10.
 From PV Require Import Run.R11.
 From PV Require Import Run.R12.
 From PV Require Import Run.R16.
@@ -17,6 +19,8 @@ Definition dispatch (st : rstate) (op : N) (arg : value) : option (rstate * valu
   match op / 100 with
   | 1 => run01 st op arg
   | 8 => run08 st op arg
+  | 9 => run09 st op arg
+  | 10 => run10 st op arg
   | 11 => run11 st op arg
   | 12 => run12 st op arg
   | 16 => run16 st op arg
@@ -34,7 +38,7 @@ Definition step (st : rstate) (req : list N) : rstate * list N :=
   match req with
   | op :: toks =>
       match decode toks with
-      | Some arg => let '(st', out) := run st op arg in (st', enc out)
+      | Some arg => let '(st', out) := run st op arg in (st', enc_fast out)   (* = enc out (WireFast.enc_fast_ok), stack-safe *)
       | None => (st, enc BAD)
       end
   | [] => (st, enc BAD)
